@@ -103,6 +103,8 @@ def gen_cb(d: D, prof: dict, depth: int) -> Optional[dict]:
             cb["yield"] = d.i(1, 2)
     if d.p(prof["p_cb_raise"]):
         cb["raise"] = True
+    if d.p(0.12):
+        cb["partial"] = True
     if depth == 0 and d.p(prof["p_embedded"]):
         cb["op"] = gen_op(d, prof, d.pick(prof["embedded_ops"]), depth + 1)
     return cb
@@ -169,7 +171,9 @@ def gen_spawn(d: D, prof: dict, depth: int, op: Optional[dict] = None) -> dict:
         op["n"] = n_hint = d.i(0, prof["max_elems"])
         if d.p(0.85):
             op["nc"] = d.i(1, prof["max_nc"])
-        if depth == 0 and d.p(prof["p_embedded"] * 0.5) and op["n"]:
+        if d.p(0.1):
+            op["as_list"] = True
+        elif depth == 0 and d.p(prof["p_embedded"] * 0.5) and op["n"]:
             op["pull_ops"] = {str(d.i(0, op["n"] - 1)): gen_op(d, prof, d.pick(["cancel_group", "cancel", "spawn", "gate", "flush"]), depth + 1)}
     op["worker"] = gen_worker(d, prof, depth, n_hint)
     e = gen_cb(d, prof, depth)
